@@ -50,7 +50,13 @@ func CombineFromNextProtos(prefix string, chunks []string) (string, error) {
 	for _, chunk := range chunks {
 		// Strip that and the number
 		if strings.HasPrefix(chunk, prefix) {
-			ret += strings.TrimPrefix(chunk, prefix)[3:]
+			rest := strings.TrimPrefix(chunk, prefix)
+			if len(rest) < 3 {
+				// Chunks come from the remote side's ClientHello; one that is
+				// too short to hold the chunk number is malformed
+				return "", fmt.Errorf("(%s) malformed chunk %q", op, chunk)
+			}
+			ret += rest[3:]
 		}
 	}
 	return ret, nil
